@@ -20,14 +20,21 @@ if bash -c "$DEMO" > $S/demo-with-patch.log 2>&1; then res "(b) demo fails with 
 git apply -R $S/patch.diff
 if bash -c "$DEMO" > $S/demo-without-patch.log 2>&1; then res "(c) demo passes without patch: yes"; C=1; else res "(c) demo passes without patch: NO"; C=0; fi
 cd /verif
-git -C /repo worktree remove --force $WT; rm -rf $WT
-# now the check, on /repo itself
-git -C /repo status --short | grep -q . && { res "/repo not clean"; exit 2; }
-git -C /repo apply $S/patch.diff || { res "patch does not apply to /repo"; exit 2; }
+# now the check.  SEED_IN_PLACE=1: apply to /repo itself and undo afterwards (only when nothing else
+# is building from /repo); default: the patched scratch worktree through VERIF_REPO (equivalent: every
+# build helper and harness takes the repository location from it)
+rm -rf $WT/zz_* ; (cd $WT && git checkout -q -- . && git clean -fdq && git apply $S/patch.diff)
 for p in $PID; do
-  bin/check $p quick > $S/check-$p.log 2>&1; rc=$?
+  if [ "${SEED_IN_PLACE:-0}" = 1 ]; then
+    git -C /repo status --short | grep -q . && { res "/repo not clean"; exit 2; }
+    git -C /repo apply $S/patch.diff || { res "patch does not apply to /repo"; exit 2; }
+    bin/check $p quick > $S/check-$p.log 2>&1; rc=$?
+    git -C /repo checkout -- .
+  else
+    VERIF_REPO=$WT VERIF_EVIDENCE_DIR=/tmp/seed-evidence bin/check $p quick > $S/check-$p.log 2>&1; rc=$?
+  fi
   res "bin/check $p quick with patch: exit=$rc $(grep -c '^VIOLATION' $S/check-$p.log) VIOLATION lines; $(grep -h 'signature=' $S/check-$p.log | sed 's/ .*//' | sort | uniq -c | tr '\n' ';')"
 done
-git -C /repo checkout -- . ; git -C /repo status --short
+git -C /repo worktree remove --force $WT; rm -rf $WT
 rm -f $S/tests-with-patch.log
 echo "A=$A B=$B C=$C"
